@@ -128,6 +128,42 @@ Theorem merge_keys base child :
   map fst (combine base child) = map fst base ++ filter (fun k => negb (tmem k base)) (map fst child).
 Proof. intros H. unfold combine. apply combine_go_keys; auto. Qed.
 
+(* ---- identity laws: an empty included file changes nothing; an empty document becomes the file ---- *)
+Theorem combine_nil_r base : combine base [] = base.
+Proof. reflexivity. Qed.
+
+Lemma merge_val_none v : merge_val None v = v.
+Proof. destruct v; reflexivity. Qed.
+
+Lemma tset_fresh k v (m : list (str * tree)) : ~ In k (map fst m) -> tset k v m = m ++ [(k, v)].
+Proof.
+  unfold tset. induction m as [|[k' v'] m IH]; intros H; cbn [assoc_set app]; [reflexivity|].
+  cbn [map fst In] in H.
+  destruct (str_eqb k k') eqn:E.
+  - apply str_eqb_eq in E. subst. exfalso. apply H. left. reflexivity.
+  - rewrite IH; [reflexivity|]. intros Hin. apply H. right. exact Hin.
+Qed.
+
+Lemma combine_go_nil : forall cm acc,
+  NoDup (map fst cm) -> (forall k, In k (map fst cm) -> ~ In k (map fst acc)) ->
+  combine_go [] acc cm = acc ++ cm.
+Proof.
+  induction cm as [|[k v] cm IH]; intros acc ND Hfresh; cbn [combine_go].
+  - rewrite app_nil_r. reflexivity.
+  - cbn [map fst] in ND. inversion ND as [|? ? Hnin ND']; subst.
+    unfold tget at 1. cbn [assoc]. fold (tget k []). 
+    replace (tget k []) with (@None tree) by reflexivity.
+    rewrite merge_val_none.
+    rewrite tset_fresh by (apply Hfresh; left; reflexivity).
+    rewrite IH; [rewrite <- app_assoc; reflexivity | exact ND' |].
+    intros k' Hin Hacc. rewrite map_app in Hacc. apply in_app_or in Hacc. destruct Hacc as [Hacc|Hacc].
+    + apply (Hfresh k'); [right; exact Hin | exact Hacc].
+    + cbn [map fst In] in Hacc. destruct Hacc as [->|[]]. apply Hnin. exact Hin.
+Qed.
+
+Theorem combine_nil_l child : NoDup (map fst child) -> combine [] child = child.
+Proof. intros ND. unfold combine. rewrite combine_go_nil; auto. Qed.
+
 (* ---- includes: one include field in a scope, at the root and in a nested sub-configuration ---- *)
 Section IncludeFacts.
   Variable load_file : N -> pyval -> res (list (str * tree)).
